@@ -113,6 +113,70 @@ def p_dedupe(N=3, L=4, twin=False, timeout=600, exclude=(), only=None, replay=No
     return symx.run_obligation(body, base, describe, rep, twin=twin, timeout=timeout)
 
 
+# ------------------------------------------------------------------ C06.names: raw names -> REAL make_export_names_routine (both links together)
+RAW_ALPHA = [ord(c) for c in "LA1 -.(/+'"]
+
+
+def p_names(N=2, L=3, twin=False, timeout=900, exclude=(), only=None, replay=None):
+    """raw sibling names straight through the real routine (the real make_export_name as sanitiser): every element GETS an export name, it is the
+    sanitised form of its own raw name (possibly with a counter), names are pairwise distinct and inside the guaranteed language"""
+    from vf import symx, sximg
+    symx.reset()
+    I = sximg.sym_image(summarize=("make_export_name", "make_safe_name", "_add_count_to_name"))
+    img = I()
+    raws, base = [], []
+    for e in range(N):
+        s, c = sximg.sym_str(f"r{e}", L, alphabet=RAW_ALPHA, minlen=1)
+        raws.append(s)
+        base += c
+
+    def body():
+        elems = [Sample(name=raws[e], _path=["d", "x"]) for e in range(N)]
+        try:
+            img.make_export_names_routine(elems)
+        except CouldNotDetermineName:
+            return z3.BoolVal(True)
+        viol = []
+        finals = []
+        for e in range(N):
+            if elems[e]._export_name is None:
+                return z3.BoolVal(True)                          # an element left without an export name falls back to its raw name
+            f = symx.SymStr.lift(elems[e]._export_name)
+            finals.append(f)
+            viol.append(z3.Not(_in_G(f, True)))
+            own = symx.SymStr.lift(img.make_export_name(raws[e], True))
+            # the assigned name starts with ... is the element's own sanitised name or that name with a counter inserted: at least as long, same first char
+            viol.append(z3.And(z3.Not(f.eq(own)), f.n <= own.n))
+        viol += [a.eq(b) for a, b in itertools.combinations(finals, 2)]
+        return z3.Or(viol)
+
+    def describe(m):
+        return {"raw_names": [s.concrete(m) for s in raws]}
+
+    def rep(cex):
+        import re
+        real = _real_image()
+        el = [Sample(name=r, _path=["d", "x"]) for r in cex["raw_names"]]
+        try:
+            real.make_export_names_routine(el)
+        except CouldNotDetermineName:
+            return True
+        finals = [e._export_name for e in el]
+        cex["assigned"] = finals
+        if any(f is None for f in finals):
+            return True
+        if len(set(finals)) != len(finals):
+            return True
+        for e, f in zip(el, finals):
+            own = real.make_export_name(e.name, True)
+            if not re.match(OKPAT, f) or f[-1].isspace() or (f != own and len(f) <= len(own)):
+                return True
+        return False
+    if replay is not None:
+        return {"verdict": "refuted", "reproduced": rep(replay), "cex": replay}
+    return symx.run_obligation(body, base, describe, rep, twin=twin, timeout=timeout)
+
+
 # ------------------------------------------------------------------ C06.stereo
 def _stereo_parts(s):
     """(is stereo name, stem) of a symbolic name per the statement: stem + run of blanks/hyphens + L|R (+ trailing blanks)"""
@@ -373,6 +437,8 @@ def obligations(tier, seed):
         obs.append(pob(f"C06.dedupe/N={N}/len={L}", "p_dedupe", {"N": N, "L": L}, "candidate names of N siblings", f"{N} siblings, names <= {L} over the 12-class alphabet", 400 if q else 1500))
     for N, L in (((2, 5), (3, 5), (4, 4)) if q else ((3, 6), (4, 5), (5, 4))):
         obs.append(pob(f"C06.stereo/N={N}/len={L}", "p_stereo", {"N": N, "L": L}, "export names of N siblings", f"{N} siblings, names <= {L} over the 12-class alphabet", 400 if q else 1500))
+    for N, L in (((2, 3),) if q else ((2, 4), (3, 3))):
+        obs.append(pob(f"C06.names/N={N}/len={L}", "p_names", {"N": N, "L": L}, "raw names of N siblings", f"{N} siblings, raw names <= {L} over 10 character classes", 500 if q else 1800))
     obs.append(pob("C06.confine", "p_confine", {"L": 4 if q else 6}, "three path components", "components <= 4/6 chars in the guaranteed language", 300))
     for kind, nm in enumerate(["traversable", "akai-image", "akai-volume", "cdda-image", "roland-performance", "roland-partial"]):
         obs.append(dict(name=f"C06.levels/{nm}", module="vf.props.c06", func="h_levels", extra_pre=[f"kind == {kind}"], timeout=120, runs=RUNS,
